@@ -911,7 +911,11 @@ class XsdElement(XsdComponent, ParticleMixin,
             except (XMLSchemaValueError, XMLSchemaTypeError) as err:
                 context.validation_error(validation, self, err, obj)
             else:
-                if any(x is not None for x in fields) or nilled:
+                if isinstance(counter, KeyrefCounter) and \
+                        any(x is None for x in fields) and not nilled:
+                    # a key reference with absent fields is not in the qualified node set
+                    continue
+                elif any(x is not None for x in fields) or nilled:
                     try:
                         counter.increase(fields)
                     except ValueError as err:
